@@ -131,7 +131,10 @@ def run(ctx, ck):
     lowprec = {}
     for f in sorted(writers, key=lambda x: x.qual):
         cls = f.cls.name if f.cls else None
-        for sp, a, node in conversions(f, ctx.flow(f)):
+        from ..fmt import printed_values
+        for sp, a, node in printed_values(f, ctx.flow(f)):
+            if sp is None:
+                continue
             t = sp[-1]
             if t in 'di':
                 if a is None:
@@ -160,8 +163,8 @@ def run(ctx, ck):
         ck.ob('R-PREC.float-conversion', '%s|row-format' % q, not bad, f.loc(node),
               'row written with %s; the property asks for 5e-6 relative / 1e-6 absolute' % bad if bad else
               'explicit float conversions carry >= 6 significant digits')
-    ck.floor('integer conversions in report writers', n_int, 12)
-    ck.floor('explicit float conversions in report writers', n_flt, 6)
+    ck.floor('integer conversions in report writers', n_int, 8)
+    ck.floor('explicit float conversions in report writers', n_flt, 2)
 
     # ---------------------------------------------------------------- D3
     n_rows = 0
@@ -204,7 +207,7 @@ def run(ctx, ck):
             n_rows += 1
             ck.ob('R-DEP.same-complex', '%s|row(%s)' % (f.qual, base), ok, f.loc(t),
                   'real/imag of %s; magnitude/phase of %s' % (base, sorted(set(srcs))))
-    ck.floor('complex rows (real, imag, magnitude, phase)', n_rows, 5)
+    ck.floor('complex rows (real, imag, magnitude, phase)', n_rows, 3)
     g = m.func('mininec.Far_Field_Pattern.abs_gain_as_mininec')
     pairs = {}
     for s in g.body():
